@@ -44,6 +44,22 @@ pub struct Scenario {
     /// Some: the bounce family instead (one host h0 restarted by Sim::bounce, plus one client)
     #[serde(default)]
     pub bounce: Option<BounceSpec>,
+    /// Some: the family without timers instead
+    #[serde(default)]
+    pub plain: Option<PlainSpec>,
+}
+
+/// Clients that use no timer at all: each yields `yields[i]` times and returns Ok; a host never finishes.
+/// `tick_us` may lie below one millisecond. Sim::run must return Ok. Then, if `idle_steps` > 0: with every
+/// client finished, Sim::step is called that many times (each still counts towards the duration), a client
+/// that needs `late_ticks` ticks is registered and Sim::run is called again: it must report the exceeded
+/// duration exactly when the clock has passed it before the client is done.
+#[derive(Clone, Debug, Serialize, Deserialize)]
+pub struct PlainSpec {
+    pub tick_us: u64,
+    pub yields: Vec<u8>,
+    pub idle_steps: u32,
+    pub late_ticks: u32,
 }
 
 /// Host h0: its first incarnation binds UDP port 9000 in a spawned task that lives on, keeps a
@@ -254,6 +270,18 @@ impl Property for C11 {
         // sometimes a duration shorter than one tick (the duration is crossed inside the very first step)
         let dur_ms = if tick_ms >= 2 && rng.chance(1, 8) { rng.range(1, tick_ms - 1) } else { dur_ms };
         cfg.duration_ms = dur_ms;
+        if rng.chance(1, 12) {
+            let sub = rng.bool();
+            let spec = PlainSpec {
+                tick_us: if sub { *rng.pick(&[250u64, 999, 500]) } else { tick_ms.max(1) * 1000 },
+                yields: (0..rng.usize(1, 3)).map(|_| rng.range(0, 5) as u8).collect(),
+                idle_steps: if sub { 0 } else { rng.range(0, 12) as u32 },
+                late_ticks: rng.range(1, 4) as u32,
+            };
+            cfg.tick_us = spec.tick_us;
+            cfg.duration_ms = if sub { 3_600_000 } else { tick_ms.max(1) * rng.range(3, 10) };
+            return Scenario { cfg, parties: vec![], run_mode: true, crashes: vec![], steps: 0, bounce: None, plain: Some(spec) };
+        }
         if rng.chance(1, 6) {
             cfg.duration_ms = 3_600_000;
             let steps = rng.range(8, 30) as u32;
@@ -266,7 +294,7 @@ impl Property for C11 {
                 second_at_us: rng.range(1, ((steps - b) as u64).max(2) * tick_ms.max(1)) * 1000,
                 client_at_us: rng.range(1, steps as u64 * tick_ms.max(1)) * 1000,
             };
-            return Scenario { cfg, parties: vec![], run_mode: false, crashes: vec![], steps, bounce: Some(spec) };
+            return Scenario { cfg, parties: vec![], run_mode: false, crashes: vec![], steps, bounce: Some(spec), plain: None };
         }
         let run_mode = rng.chance(2, 3);
         let n = rng.usize(0, 5);
@@ -304,12 +332,15 @@ impl Property for C11 {
                 }
             }
         }
-        Scenario { cfg, parties, run_mode, crashes, steps, bounce: None }
+        Scenario { cfg, parties, run_mode, crashes, steps, bounce: None, plain: None }
     }
 
     fn run(sc: &Scenario, keep: bool) -> Report {
         if let Some(b) = &sc.bounce {
             return run_bounce(sc, b, keep);
+        }
+        if let Some(p) = &sc.plain {
+            return run_plain(sc, p, keep);
         }
         let n = sc.parties.len();
         let sh = Shared {
@@ -576,6 +607,74 @@ impl Property for C11 {
 
 
 /// The bounce family (see `BounceSpec`).
+fn run_plain(sc: &Scenario, p: &PlainSpec, keep: bool) -> Report {
+    let log = SharedLog::new(keep);
+    let tick = p.tick_us;
+    let r = catch(|| -> Option<Violation> {
+        let mut sim = sc.cfg.build();
+        sim.host("h", || async {
+            std::future::pending::<()>().await;
+            Ok(())
+        });
+        for (i, y) in p.yields.iter().enumerate() {
+            let y = *y;
+            sim.client(format!("c{i}"), async move {
+                for _ in 0..y {
+                    tokio::task::yield_now().await;
+                }
+                Ok(())
+            });
+        }
+        let r1 = sim.run();
+        log.ev(format!("run #1 -> {:?} elapsed={}us", r1.as_ref().map_err(|e| e.to_string()), us(sim.elapsed())));
+        if let Err(e) = r1 {
+            return Some(Violation::new("WrongOutcome", format!("tick {tick}us: {} clients that only yield (at most 5 times) and return Ok, one host that never finishes, duration {}ms: Sim::run returned Err({e}) after {}us", p.yields.len(), sc.cfg.duration_ms, us(sim.elapsed()))));
+        }
+        if p.idle_steps == 0 {
+            return None;
+        }
+        for k in 0..p.idle_steps {
+            match sim.step() {
+                Ok(true) => {}
+                other => return Some(Violation::new("WrongStepResult", format!("idle step {k} after every client had finished returned {:?}, expected Ok(true)", other.map_err(|e| e.to_string())))),
+            }
+        }
+        let before = us(sim.elapsed());
+        let lt = p.late_ticks;
+        let tk = Duration::from_micros(tick);
+        sim.client("late", async move {
+            tokio::time::sleep(tk * lt).await;
+            Ok(())
+        });
+        let r2 = sim.run();
+        let after = us(sim.elapsed());
+        log.ev(format!("{} idle steps, late client ({lt} ticks): run #2 -> {:?} elapsed {before}us -> {after}us", p.idle_steps, r2.as_ref().map_err(|e| e.to_string())));
+        // the reference: every step (also the idle ones) advances the clock by one tick; the late client is done in the
+        // step in which its own clock reaches lt ticks, i.e. lt (or lt + 1, boundary) steps after its registration
+        let dur = sc.cfg.duration_ms * 1000;
+        let done_lo = before + lt as u64 * tick;
+        let done_hi = before + (lt as u64 + 1) * tick;
+        let must_ok = done_hi <= dur;
+        let must_err = done_lo > dur + tick;
+        match (&r2, must_ok, must_err) {
+            (Err(e), true, _) => Some(Violation::new("WrongOutcome", format!("after {} idle steps (clock at {before}us) a client that needs {lt} ticks was registered; it is done by {done_hi}us <= duration {dur}us, yet Sim::run returned Err({e})", p.idle_steps))),
+            (Ok(()), _, true) => Some(Violation::new("WrongOutcome", format!("after {} idle steps the clock stood at {before}us; a client that needs {lt} ticks cannot be done before {done_lo}us, more than a tick beyond the duration {dur}us, yet Sim::run returned Ok (clock now {after}us)", p.idle_steps))),
+            _ => None,
+        }
+    });
+    let violation = match r {
+        Ok(v) => v,
+        Err(m) => Some(Violation::new("UnexpectedPanic", format!("the timer-free family panicked: {m}"))),
+    };
+    log.tag(if tick < 1000 { "submilli" } else { "idle" });
+    log.0.borrow_mut().tag_u64(p.idle_steps as u64);
+    let mut rep = Report::from_log(log.take());
+    rep.violation = violation;
+    rep.nontrivial = true;
+    rep.probes.inc(if tick < 1000 { "timer_free_clients_with_a_tick_below_one_millisecond" } else { "idle_steps_then_a_late_client" });
+    rep
+}
+
 fn run_bounce(sc: &Scenario, b: &BounceSpec, keep: bool) -> Report {
     let log = SharedLog::new(keep);
     let tick = sc.cfg.tick_us;
